@@ -99,6 +99,20 @@ def run_lib(scn):
         elif mode == "chain-supertrend":
             ind = cls(**kw)
             Hexital("chain", candles, [I.Supertrend(period=scn["chain_period"]), ind]).calculate()
+        elif scn.get("live"):
+            # built live: a (possibly empty) construction prefix, calculate(), then appends in chunks - optionally on a collapsing
+            # timeframe; the definition is then over the independently resampled stream
+            lv = scn["live"]
+            n, init = len(candles), min(lv.get("init", 0), len(candles))
+            extra = {"timeframe": lv["tf"]} if lv.get("tf") else {}
+            ind = cls(candles=candles[:init], **extra, **kw)
+            ind.calculate()
+            i = init
+            for k in list(lv.get("chunks", [])) + [n]:
+                if i >= n:
+                    break
+                ind.append(candles[i:i + max(1, k)])
+                i += max(1, k)
         else:
             ind = cls(candles=candles, **kw)
             ind.calculate()
@@ -291,7 +305,7 @@ def position_check(scn, x, out):
     """same input values placed at another index give the same readings (C04)"""
     kind, kw = scn["kind"], dict(scn["kwargs"])
     off = scn.get("position_offset")
-    if off is None or not scn["stream"]:
+    if off is None or not scn["stream"] or scn.get("live"):   # position independence is examined on the batch-built scenarios
         return None
     if kind == "VWMA":  # no input_value: window function, so candles put in front must not matter once the window has left them
         p = kw["period"]
@@ -429,6 +443,8 @@ def check(scn):
     """-> (violation dict | None, info dict)"""
     kind, kw = scn["kind"], scn["kwargs"]
     stream = [tuple(r[:6]) for r in scn["stream"]]
+    if (scn.get("live") or {}).get("tf"):
+        stream = cm.ref_resample(stream, gen.tf_seconds(scn["live"]["tf"]))
     q = Q(kw.get("round_value", 4))
     res = run_lib(scn)
     info = {"evaluated": 0, "unchecked": False}
@@ -642,6 +658,19 @@ def gen_scn(rng, idx, prop, params):
             meta["xstyle"] = xstyle
             meta["late"] = start > 0
         rows = [r + [x] for r, x in zip(rows, xs)]
+    meta["live"] = "batch"
+    if mode == "field" and not meta["gaps"] and rng.random() < 0.3:
+        (init, chunks), shape = gen.gen_schedule(rng, len(rows), shape=rng.choice(["empty1", "one1", "few", "random", "random"]))
+        scn["live"] = {"init": init, "chunks": chunks, "tf": None}
+        meta["live"] = "appends"
+        if rng.random() < 0.5 and rows:
+            tf = rng.choice(["T1", "T5", "T5", "T15", "H1", "S30"])
+            step = max(1, gen.tf_seconds(tf) // rng.choice([1, 2, 3, 5]))
+            base = 1_700_000_000 - (1_700_000_000 % 86400) + rng.choice([0, 0, step, 7])
+            for i, r in enumerate(rows):
+                r[0] = base + i * step
+            scn["live"]["tf"] = tf
+            meta["live"] = "appends+tf"
     scn.update(kwargs=kw, mode=mode, stream=rows)
     meta.update(kind=kind, mode=mode, price=smeta["price"], period=("2-5" if p <= 5 else "6-12" if p <= 12 else "13-25" if p <= 25 else "50"),
                 rv=kw["round_value"])
